@@ -86,10 +86,11 @@ VernauxF == << <<"vna_hash", "word">>, <<"vna_flags", "half">>, <<"vna_other", "
 HashF == << <<"nbucket", "word">>, <<"nchain", "word">> >>
 GnuHashF == << <<"nbuckets", "word">>, <<"symoffset", "word">>, <<"bloom_size", "word">>, <<"bloom_shift", "word">> >>
 WordF == << <<"bucket", "word">> >>
+ChainF == << <<"chain", "word">> >>
 
 LayOf(kind, cls) ==
   CASE kind = "ehdr" -> EhdrF [] kind = "shdr" -> ShdrF [] kind = "phdr" -> PhdrF(cls) [] kind = "dyn" -> DynF
-    [] kind = "nhdr" -> NhdrF [] kind = "hash" -> HashF [] kind = "gnuhash" -> GnuHashF [] kind = "gnubucket" -> WordF
+    [] kind = "nhdr" -> NhdrF [] kind = "hash" -> HashF [] kind = "gnuhash" -> GnuHashF [] kind = "gnubucket" -> WordF [] kind = "gnuchain" -> ChainF
     [] kind = "verdef" -> VerdefF [] kind = "verdaux" -> VerdauxF [] kind = "verneed" -> VerneedF [] kind = "vernaux" -> VernauxF
 RECURSIVE OffIn(_, _, _)
 OffIn(F, cls, i) == IF i = 1 THEN 0 ELSE OffIn(F, cls, i - 1) + Width(F[i - 1][2], cls)
@@ -120,6 +121,10 @@ DotGnuVersionR == DotGnuVersion \o <<95, 114>>
 DotNoteX == <<46, 110, 111, 116, 101, 46, 120>>
 DotDynamic == <<46, 100, 121, 110, 97, 109, 105, 99>>
 DotSymtabX == <<46, 115, 121, 109, 116, 97, 98>>
+DotRelaX == <<46, 114, 101, 108, 97, 46, 120>>
+DotShndx == <<46, 115, 104, 110, 100, 120>>
+DotGroup == <<46, 103, 114, 111, 117, 112>>
+DotSyminfo == <<46, 115, 121, 109, 105, 110, 102, 111>>
 W4(a, b, c, d) == W(<<a, b, c, d>>)
 SymRec(name, info, shndx) == [st_name |-> N(name), st_value |-> Z, st_size |-> Z, st_info |-> N(info), st_other |-> Z, st_shndx |-> N(shndx)]
 SynSyms(cls, le) == Ser(SymF(cls), SymRec(0, 0, 0), cls, le) \o Ser(SymF(cls), SymRec(1, 18, 1), cls, le)
@@ -146,7 +151,10 @@ SynDyn(cls, le, o) ==
   \o DynEnt(N(11), N(SizeOf(SymF(cls), cls)), cls, le) \o DynEnt(Z, Z, cls, le)
 SymSz(cls) == SizeOf(SymF(cls), cls)
 DynSz(cls) == SizeOf(DynF, cls)
-\* sections 1..10 (index = position: the name table comes last); `o` = file offsets of the sections (0 while sizing)
+\* sections 1..14 (index = position: the name table comes last); `o` = file offsets of the sections (0 while sizing).
+\* 11..14: one section of every further kind whose sh_link / sh_info names another section (gABI figure 4-14: SHT_RELA
+\* -> symbol table + section the relocations apply to, SHT_SYMTAB_SHNDX -> symbol table, SHT_GROUP -> symbol table;
+\* Solaris syminfo -> symbol table + dynamic section)
 SynSecs(cls, le, o) ==
   LET A(k) == N(o[k]) IN
   << Sec(DotDynstr, N(3), N(2), A(1), DynStrData, N(Len(DynStrData)), Z, Z, N(1), Z),
@@ -158,13 +166,18 @@ SynSecs(cls, le, o) ==
      Sec(DotGnuVersionR, W4(254, 255, 255, 111), N(2), A(7), SynVerneed(le), N(64), N(1), N(2), N(4), Z),
      Sec(DotNoteX, N(7), N(2), A(8), SynNotes(le), N(Len(SynNotes(le))), Z, Z, N(4), Z),
      Sec(DotDynamic, N(6), N(3), A(9), SynDyn(cls, le, o), N(8 * DynSz(cls)), N(1), Z, N(8), N(DynSz(cls))),
-     Sec(DotSymtabX, N(2), Z, Z, SynSyms(cls, le), N(2 * SymSz(cls)), N(1), N(1), N(8), N(SymSz(cls))) >>
-ZeroOffs == [k \in 1..10 |-> 0]
+     Sec(DotSymtabX, N(2), Z, Z, SynSyms(cls, le), N(2 * SymSz(cls)), N(1), N(1), N(8), N(SymSz(cls))),
+     Sec(DotRelaX, N(4), Z, Z, Rep(0, SizeOf(RelaF, cls)), N(SizeOf(RelaF, cls)), N(2), N(8), N(8), N(SizeOf(RelaF, cls))),
+     Sec(DotShndx, N(18), Z, Z, Words(<<Z, Z>>, le), N(8), N(10), Z, N(4), N(4)),
+     Sec(DotGroup, N(17), Z, Z, Words(<<N(1), N(8)>>, le), N(8), N(10), N(1), N(4), N(4)),
+     Sec(DotSyminfo, W4(252, 255, 255, 111), Z, Z, Rep(0, 8), N(8), N(2), N(9), N(4), N(4)) >>
+NSyn == 14
+ZeroOffs == [k \in 1..NSyn |-> 0]
 SynIm(cls, le) ==
   LET machine == IF cls = 64 THEN (IF le THEN 62 ELSE 21) ELSE (IF le THEN 3 ELSE 8)
       dummy == Seg(Z, Z, Z, Z, Z, Z, Z, Z)
       im1 == [Im0 EXCEPT !.cls = cls, !.le = le, !.machine = machine, !.secs = SynSecs(cls, le, ZeroOffs), !.segs = <<dummy, dummy, dummy>>]
-      o == [k \in 1..10 |-> SecOff(im1, k)]
+      o == [k \in 1..NSyn |-> SecOff(im1, k)]
       fsz == FileSize(im1)
   IN [im1 EXCEPT !.secs = SynSecs(cls, le, o),
                  !.segs = << Seg(N(1), N(5), Z, Z, Z, N(fsz), N(fsz), N(4096)),                                   \* PT_LOAD: the whole file at address 0
@@ -196,6 +209,8 @@ ShtRole(d) ==   \* gABI figure 4-9 and the GNU / Sun additions (numbers as LE di
   CASE d = <<0, 0, 0, 0>> -> "null" [] d = <<1, 0, 0, 0>> -> "progbits" [] d = <<2, 0, 0, 0>> -> "symtab" [] d = <<3, 0, 0, 0>> -> "strtab"
     [] d = <<4, 0, 0, 0>> -> "rela" [] d = <<5, 0, 0, 0>> -> "hash" [] d = <<6, 0, 0, 0>> -> "dynamic" [] d = <<7, 0, 0, 0>> -> "note"
     [] d = <<8, 0, 0, 0>> -> "nobits" [] d = <<9, 0, 0, 0>> -> "rel" [] d = <<11, 0, 0, 0>> -> "dynsym"
+    [] d = <<17, 0, 0, 0>> -> "group" [] d = <<18, 0, 0, 0>> -> "symtab_shndx"
+    [] d = <<243, 255, 255, 111>> -> "ldynsym" [] d = <<252, 255, 255, 111>> -> "syminfo"      \* SHT_SUNW_LDYNSYM, SHT_SUNW_syminfo
     [] d = <<246, 255, 255, 111>> -> "gnu_hash" [] d = <<253, 255, 255, 111>> -> "verdef" [] d = <<254, 255, 255, 111>> -> "verneed"
     [] d = <<255, 255, 255, 111>> -> "versym" [] OTHER -> "other"
 PtRole(d) == CASE d = <<1, 0, 0, 0>> -> "load" [] d = <<2, 0, 0, 0>> -> "dynamic" [] d = <<3, 0, 0, 0>> -> "interp" [] d = <<4, 0, 0, 0>> -> "note"
@@ -246,6 +261,9 @@ Locate(bs) ==
                   THEN <<Rec("gnuhash", "gnuhash", e[1])>>
                        \o (LET bo == e[1] + 16 + FN(B, e[1], GnuHashF, cls, le, "bloom_size") * (cls \div 8) IN
                            IF FN(B, e[1], GnuHashF, cls, le, "nbuckets") >= 1 /\ bo + 4 <= e[1] + e[2] THEN <<Rec("gnubucket", "gnubucket", bo)>> ELSE <<>>)
+                       \* the last chain word (the one that carries the end-of-chain bit of the last chain): the last word of the section
+                       \o (LET co == e[1] + 16 + FN(B, e[1], GnuHashF, cls, le, "bloom_size") * (cls \div 8) + 4 * FN(B, e[1], GnuHashF, cls, le, "nbuckets") IN
+                           IF co + 4 <= e[1] + e[2] THEN <<Rec("gnuchain", "gnuchain", e[1] + e[2] - 4)>> ELSE <<>>)
                   ELSE <<>>
       \* version chains: sh_info entries linked by *_next, each with *_cnt auxiliaries from *_aux linked by *a_next
       VerOf(e, def) ==
@@ -268,11 +286,42 @@ Locate(bs) ==
       raw == <<Rec("ehdr", "ehdr", 16)>> \o shdrs \o phdrs \o content
   IN [cls |-> cls, le |-> le, size |-> size, shoff |-> shoff, shent |-> shent, shnum |-> shnum, strndx |-> strndx,
       phoff |-> phoff, phent |-> phent, phnum |-> phnum,
+      \* per section index: role and current sh_link (for the link faults)
+      shroles |-> shrole, shlinks |-> [i \in 0..(shnum - 1) |-> ShFld(i, "sh_link")],
       recs |-> [r \in 1..Len(raw) |-> [kind |-> raw[r].kind, role |-> raw[r].role, off |-> raw[r].off,
                                        idx |-> Cardinality({q \in 1..(r - 1) : raw[q].role = raw[r].role}),
                                        nrec |-> Cardinality({q \in 1..Len(raw) : raw[q].role = raw[r].role})]]]
 (* ------------------------------ value classes -------------------------- *)
-ClassSeq == <<"zero", "one", "entm1", "fsize", "fsize1", "b31", "m32", "b63", "m64">>
+\* `nent`: 2^width - entry size, i.e. "minus one record" for a reader that adds in the width of the field (a displacement or
+\* size that wraps the position round to where it was); only in fields that a reader adds to a position (DispFields).
+\* `self` .. `shnum`: the LINK classes, only in the sh_link / sh_info of a section header whose kind makes that field the
+\* index of another section (LinkField, gABI figure 4-14 and the GNU / Sun additions): the section's own index; the next /
+\* previous section of the same kind (symbol tables of all types are one kind), cyclically; the first / last other section
+\* whose own sh_link designates this one; the number of sections (one past the table).  (0 and 2^32-1 are `zero`, `m32`.)
+\* One link fault closes a 1-cycle (self) or a 2-cycle (back); two close a 2-cycle between peers (peern + peerp).
+ClassSeq == <<"zero", "one", "entm1", "fsize", "fsize1", "b31", "m32", "b63", "m64", "nent", "self", "peern", "peerp", "back", "backl", "shnum">>
+LinkClasses == {"self", "peern", "peerp", "back", "backl", "shnum"}
+DispFields == {"n_namesz", "n_descsz", "vd_aux", "vd_next", "vda_next", "vn_aux", "vn_next", "vna_next", "sh_offset", "sh_size",
+               "p_offset", "p_filesz", "d_val", "e_shoff", "e_phoff"}
+SymRoles == {"symtab", "dynsym", "ldynsym"}
+LinkFollowed == SymRoles \cup {"dynamic", "versym", "verdef", "verneed", "hash", "gnu_hash", "rel", "rela", "symtab_shndx", "group", "syminfo"}
+InfoFollowed == {"rel", "rela", "syminfo"}
+LinkField(role, field) == \/ field = "sh_link" /\ \E r \in LinkFollowed : role = "shdr:" \o r
+                          \/ field = "sh_info" /\ \E r \in InfoFollowed : role = "shdr:" \o r
+LinkKind(r) == IF r \in SymRoles THEN "sym" ELSE r
+\* the value of link class c for the header of section i (-1: the seed has no such section)
+LinkVal(L, i, c) ==
+  LET all == 0..(L.shnum - 1)
+      peers == {j \in all : j # i /\ LinkKind(L.shroles[j]) = LinkKind(L.shroles[i])}
+      backs == {j \in all : j # i /\ j # 0 /\ L.shlinks[j] = i}
+      lo(S) == CHOOSE x \in S : \A y \in S : x <= y
+      hi(S) == CHOOSE x \in S : \A y \in S : x >= y IN
+  CASE c = "self" -> i
+    [] c = "peern" -> (IF peers = {} THEN -1 ELSE IF \E j \in peers : j > i THEN lo({j \in peers : j > i}) ELSE lo(peers))
+    [] c = "peerp" -> (IF peers = {} THEN -1 ELSE IF \E j \in peers : j < i THEN hi({j \in peers : j < i}) ELSE hi(peers))
+    [] c = "back" -> (IF backs = {} THEN -1 ELSE lo(backs))
+    [] c = "backl" -> (IF backs = {} THEN -1 ELSE hi(backs))
+    [] c = "shnum" -> L.shnum
 TopBit(w) == [i \in 1..w |-> IF i = w THEN 128 ELSE 0]
 Ones(w) == [i \in 1..w |-> 255]
 \* LE digits of class c in a field of w bytes (w in {1, 2, 4, 8}); a class beyond the field is fitted to it
@@ -283,6 +332,7 @@ ClassDigits(c, w, ent, fsize) ==
     [] c = "m32" -> IF w >= 4 THEN [i \in 1..w |-> IF i <= 4 THEN 255 ELSE 0] ELSE Ones(w)
     [] c = "b63" -> TopBit(w)
     [] c = "m64" -> Ones(w)
+    [] c = "nent" -> DNeg(LEn(ent, w))
 \* the natural entry size behind a field (for class entm1)
 EntOf(rec, field, cls) ==
   LET shsz == SizeOf(ShdrF, cls)   phsz == SizeOf(PhdrF(cls), cls) IN
@@ -301,7 +351,9 @@ EntOf(rec, field, cls) ==
 \* the name table's header, the first header of every other role, every content record
 KeyRec(rec) == Tier = "thorough" \/ rec.kind \notin {"shdr", "phdr"} \/ rec.idx = 0
 \* `pair`: the reduced class set used when faults are composed
-PairClass(c) == c \in {"zero", "m32", "b63"} \/ (Tier = "thorough" /\ c \in {"entm1", "fsize"})
+PairClass(c) == c \in {"zero", "m32", "b63", "nent"} \/ (Tier = "thorough" /\ c \in {"entm1", "fsize"})
+\* link faults are composed with each other (group "link", on every seed): the classes that can close a cycle
+LinkPairClass(c) == c \in {"self", "peern", "peerp", "back"} \/ Tier = "thorough"
 \* group of a field for composition: fields of one group are combined with each other
 CtorFields == {"e_shoff", "e_shentsize", "e_shnum", "e_shstrndx", "e_phoff", "e_phentsize", "e_phnum"}
 GroupOf(rec, field) ==
@@ -328,14 +380,25 @@ SFOf(bs, L) ==
             off == rec.off + OffIn(F, L.cls, fi)   w == Width(F[fi][2], L.cls)
             cur == Dg(B, off, w, L.le)
             ent == EntOf(rec, name, L.cls)
-            dg == [c \in 1..Len(ClassSeq) |-> ClassDigits(ClassSeq[c], w, ent, L.size)]
+            islink == rec.kind = "shdr" /\ LinkField(rec.role, name) /\ L.shent > 0
+            secix == IF islink THEN (rec.off - L.shoff) \div L.shent ELSE 0
+            \* a class that does not apply to the field reads as the current value and is dropped by `keep`
+            dg == [c \in 1..Len(ClassSeq) |->
+                     IF ClassSeq[c] \in LinkClasses
+                     THEN (IF ~islink THEN cur ELSE LET v == LinkVal(L, secix, ClassSeq[c]) IN IF v < 0 THEN cur ELSE LEn(v, w))
+                     ELSE IF ClassSeq[c] = "nent" /\ name \notin DispFields THEN cur
+                     ELSE ClassDigits(ClassSeq[c], w, ent, L.size)]
             keep == {c \in 1..Len(ClassSeq) : dg[c] # cur /\ \A e \in 1..(c - 1) : dg[e] # dg[c]}
         IN IF off + w > L.size THEN <<>>
            ELSE [m \in 1..Cardinality(keep) |->
                    LET c == CHOOSE c \in keep : Cardinality({x \in keep : x < c}) = m - 1 IN
                    [r |-> r, kind |-> rec.kind, role |-> rec.role, idx |-> rec.idx, nrec |-> rec.nrec, field |-> name, cls |-> ClassSeq[c],
                     off |-> off, b |-> IF L.le THEN dg[c] ELSE Rev(dg[c]),
-                    single |-> KeyRec(rec), grp |-> IF PairClass(ClassSeq[c]) THEN GroupOf(rec, name) ELSE {}]]
+                    single |-> KeyRec(rec),
+                    grp |-> IF ClassSeq[c] \in LinkClasses THEN (IF LinkPairClass(ClassSeq[c]) THEN {"link"} ELSE {})
+                            \* (`nent` is composed only inside content records: note sizes, version displacements)
+                            ELSE IF PairClass(ClassSeq[c]) /\ (ClassSeq[c] = "nent" => rec.kind \notin {"ehdr", "shdr", "phdr", "dyn"})
+                                 THEN GroupOf(rec, name) ELSE {}]]
       PerRec(r) == LET F == LayOf(L.recs[r].kind, L.cls) IN Flat([fi \in 1..Len(F) |-> PerField(r, fi)])
   IN Flat([r \in 1..Len(L.recs) |-> PerRec(r)])
 
@@ -376,7 +439,7 @@ PairOK(s, f, g) ==
   /\ CASE f[1] = "F" /\ g[1] = "F" ->
             LET a == SeedTab[s].sf[f[2]]   b == SeedTab[s].sf[g[2]] IN
             /\ a.off # b.off
-            /\ {x \in a.grp \cap b.grp : x = "ctor" \/ "any" \in SeedTab[s].grpOK} # {}     \* (a set, not \E: TLC would branch per witness)
+            /\ {x \in a.grp \cap b.grp : x \in {"ctor", "link"} \/ "any" \in SeedTab[s].grpOK} # {}     \* (a set, not \E: TLC would branch per witness)
        [] f[1] = "F" /\ g[1] = "T" -> "ctor" \in SeedTab[s].sf[f[2]].grp /\ g[2] \in SeedTab[s].keytrunc
        [] f[1] = "S" /\ g[1] = "S" -> Tier = "thorough" /\ f[2] # g[2] /\ f[2] < 16 /\ g[2] < 16 /\ f[3] = "ff" /\ g[3] = "ff"
        [] f[1] = "S" /\ g[1] = "T" -> Tier = "thorough" /\ g[2] \in SeedTab[s].keytrunc /\ f[3] = "ff"
@@ -538,10 +601,16 @@ LocateRoundTripOf(k) ==
   /\ L.phnum = NSeg(im) /\ L.phoff = PhOff(im) /\ L.phent = PhEnt(im)
   /\ \A i \in 0..(NSec(im) - 1) : \E q \in 1..Len(L.recs) : L.recs[q].kind = "shdr" /\ L.recs[q].off = ShOff(im) + i * ShEnt(im)
   /\ Cardinality(roles("dyn")) = 8 /\ Cardinality(roles("nhdr")) = 2 /\ Cardinality(roles("hash")) = 1
-  /\ Cardinality(roles("gnuhash")) = 1 /\ Cardinality(roles("gnubucket")) = 1
+  /\ Cardinality(roles("gnuhash")) = 1 /\ Cardinality(roles("gnubucket")) = 1 /\ Cardinality(roles("gnuchain")) = 1
   /\ Cardinality(roles("verdef")) = 1 /\ Cardinality(roles("verdaux")) = 1 /\ Cardinality(roles("verneed")) = 2 /\ Cardinality(roles("vernaux")) = 2
   /\ \A r \in {"shdr:dynamic", "shdr:note", "shdr:hash", "shdr:gnu_hash", "shdr:verdef", "shdr:verneed", "shdr:versym", "shdr:dynsym",
-               "shdr:symtab", "shdr:strtab", "shdr:shstrtab", "shdr:null0", "phdr:load", "phdr:dynamic", "phdr:note"} : Cardinality(roles(r)) = 1
+               "shdr:symtab", "shdr:strtab", "shdr:shstrtab", "shdr:null0", "phdr:load", "phdr:dynamic", "phdr:note",
+               "shdr:rela", "shdr:symtab_shndx", "shdr:group", "shdr:syminfo"} : Cardinality(roles(r)) = 1
+  /\ \E q \in roles("gnuchain") : L.recs[q].off = SecOff(im, 4) + 20 + (im.cls \div 8)
+  \* the link structure the writer chose is the one the link classes are computed from
+  /\ \A i \in 1..NSyn : L.shlinks[i] = im.secs[i].link.n
+  /\ LinkVal(L, 2, "peern") = 10 /\ LinkVal(L, 10, "peern") = 2 /\ LinkVal(L, 2, "back") = 3 /\ LinkVal(L, 2, "backl") = 14
+  /\ LinkVal(L, 10, "back") = 12 /\ LinkVal(L, 3, "peern") = -1 /\ LinkVal(L, 9, "shnum") = NSyn + 2
   /\ \E q \in roles("dyn") : L.recs[q].idx = 0 /\ L.recs[q].off = SecOff(im, 9)
   /\ \E q \in roles("nhdr") : L.recs[q].idx = 1 /\ L.recs[q].off = SecOff(im, 8) + 20
   /\ \E q \in roles("verneed") : L.recs[q].idx = 1 /\ L.recs[q].off = SecOff(im, 7) + 32
